@@ -189,6 +189,14 @@ func excludedPair(x, a interface{}) bool {
 	return false
 }
 
+func showAll(vs []interface{}) []string {
+	var out []string
+	for _, v := range vs {
+		out = append(out, show(v))
+	}
+	return out
+}
+
 func typed(t reflect.Type, v interface{}) reflect.Value {
 	out := reflect.New(t).Elem()
 	if v != nil {
@@ -292,6 +300,56 @@ func TestC18(t *testing.T) {
 				rep.Violate(key("C18/in-panics"), fmt.Sprintf("In(%s,%s,%s)(%s): %v", show(x), show(y), show(z), show(a), p3), c)
 			} else if gotIn != wantIn {
 				rep.Violate(key("C18/in-not-union"), fmt.Sprintf("In(%s,%s,%s)(%s) = %v, union of Equals says %v", show(x), show(y), show(z), show(a), gotIn, wantIn), c)
+			}
+		}
+		// one In object with four alternatives, resolved once, then queried repeatedly: every answer is the union of Equals
+		{
+			alts := []interface{}{x, y, z, d.gen(rng)}
+			ok4 := true
+			for _, al := range alts {
+				if excludedPair(al, al) {
+					ok4 = false
+				}
+			}
+			if ok4 {
+				in := arg.In(alts...)
+				var rerr interface{}
+				func() {
+					defer func() { rerr = recover() }()
+					if err := in.Resolve([]reflect.Type{pt}, false); err != nil {
+						rerr = err
+					}
+				}()
+				var trail []string
+				for q := 0; q < 10 && rerr == nil; q++ {
+					qa := alts[rng.Intn(len(alts))]
+					if q%4 == 3 {
+						qa = d.gen(rng)
+					}
+					skip := false
+					wantQ := false
+					for _, al := range alts {
+						if excludedPair(al, qa) {
+							skip = true
+						}
+						wantQ = wantQ || oracle(d, al, qa)
+					}
+					if skip {
+						continue
+					}
+					var got bool
+					var perr interface{}
+					func() {
+						defer func() { perr = recover() }()
+						got, _ = in.Eval([]reflect.Value{typed(pt, qa)}, false)
+					}()
+					rep.Eval(1)
+					trail = append(trail, fmt.Sprintf("%s->%v", show(qa), got))
+					if perr != nil || got != wantQ {
+						rep.Violate(key("C18/in-answer-depends-on-history"), fmt.Sprintf("In%v resolved once, query %d: In(...)(%s) = %v (panic %v), union of Equals says %v; earlier queries %v", showAll(alts), q, show(qa), got, perr, wantQ, trail), c)
+						break
+					}
+				}
 			}
 		}
 		// Any
